@@ -175,6 +175,66 @@ func seqxDump(e iface.IPFSLogEntry) string {
 	return fmt.Sprintf("payload=%x id=%q next=%v refs=%v v=%d clock=%x@%d key=%x", e.GetPayload(), e.GetLogID(), e.GetNext(), e.GetRefs(), e.GetV(), e.GetClock().GetID(), e.GetClock().GetTime(), e.GetKey())
 }
 
+// identityVariant returns writer w's identity with altered (unverified) identity signatures:
+// entries embed whatever identity they are created with, and decoding must give it back.
+func identityVariant(w, variant int) *idp.Identity {
+	base := world.IDs[w]
+	id := &idp.Identity{ID: base.ID, PublicKey: base.PublicKey, Type: base.Type, Provider: base.Provider,
+		Signatures: &idp.IdentitySignature{ID: append([]byte{}, base.Signatures.ID...), PublicKey: append([]byte{}, base.Signatures.PublicKey...)}}
+	switch variant {
+	case 1:
+		id.Signatures.ID[len(id.Signatures.ID)-1] ^= 1
+	case 2:
+		id.Signatures.PublicKey[len(id.Signatures.PublicKey)-1] ^= 1
+	case 3:
+		id.Signatures.ID = append(id.Signatures.ID, 0x01)
+		id.Signatures.PublicKey = id.Signatures.PublicKey[:len(id.Signatures.PublicKey)-1]
+	}
+	return id
+}
+
+// c08Identities writes and reads back, in one process and in this order, entries of the same
+// writer whose identities differ only in their identity signatures.
+func c08Identities(p *run.Part) {
+	for _, codec := range []string{"default", "linkkey"} {
+		for w := 0; w < 2; w++ {
+			st := store.New()
+			io := defaultIO()
+			if codec == "linkkey" {
+				io = linkKeyIO("K1")
+			}
+			for step, variant := range []int{0, 1, 2, 3, 0, 2} {
+				id := identityVariant(w, variant)
+				e, err := entry.CreateEntryWithIO(world.Ctx, st, id, &entry.Entry{LogID: "X", Payload: []byte(fmt.Sprintf("idv%d", step)),
+					Next: linksOf([]int{0}), Clock: entry.NewLamportClock(id.PublicKey, step+1)}, nil, io)
+				p.Add(1, 1, 0, 1)
+				cc := c08Case{Codec: codec, What: fmt.Sprintf("identity-variants:w%d", w)}
+				if err != nil {
+					p.Violate("identity", "C08:"+codec+":identity-variant-create-failed", err.Error(), cc)
+					continue
+				}
+				d, err := entry.FromMultihashWithIO(world.Ctx, st, e.GetHash(), id.Provider, io)
+				if err != nil {
+					p.Violate("identity", "C08:"+codec+":identity-variant-read-failed", err.Error(), cc)
+					continue
+				}
+				if f := fieldDiff(e, d); f != "" {
+					p.Violate("identity", "C08:"+codec+":field-differs:"+f, fmt.Sprintf("%s codec: entry #%d of writer %d (identity variant %d, written after other entries of the same writer whose identity differs only in its signatures): field %s differs after write+read", codec, step, w, variant, f), cc)
+					continue
+				}
+				if codec == "default" {
+					if c2, err := entry.ToMultihashWithIO(world.Ctx, d, store.New(), nil, io); err != nil || !c2.Equals(e.GetHash()) {
+						p.Violate("identity", "C08:default:re-encode-different-cid", fmt.Sprintf("identity variant %d: decoded entry re-encodes to %v (err %v), original %s", variant, c2, err, e.GetHash()), cc)
+						continue
+					}
+				}
+				p.Add(0, 0, 1, 0)
+				p.Nontriv(fmt.Sprint(codec, w, step))
+			}
+		}
+	}
+}
+
 // C08Digest computes the digest over the CIDs of all grammar entries (default codec) and all manifests.
 func C08Digest(tier string) string {
 	g := grammar(tier)
@@ -282,6 +342,7 @@ func c08Run(p *run.Part, tier string) {
 		}
 	}
 	c08Vectors(p)
+	c08Identities(p)
 	p.SetExtra("grammar_entries", len(g))
 	p.SetExtra("cid_digest", mine)
 	p.Sample(6, c08Case{Spec: g[3], Codec: "default", What: "roundtrip"})
@@ -486,6 +547,8 @@ func init() {
 		switch {
 		case strings.HasPrefix(c.What, "vector"):
 			c08Vectors(p)
+		case strings.HasPrefix(c.What, "identity-variants"):
+			c08Identities(p)
 		case c.What == "manifest" || c.What == "process" || c.What == "collision":
 			c08Run(p, "quick")
 		default:
